@@ -14,6 +14,22 @@ ERR_CODES = [
     (5, "attributes are not allowed on fields when"),
     (6, "unions must have"),
     (7, "cannot be derived for unions"),
+    (8, "legacy syntax, remove `fmt =`"),
+    (9, "legacy syntax, use `bound("),
+    (11, "(rename_all=\"...\")]` attributes aren't allowed"),
+    (10, "(\"...\", ...)]` attributes aren't allowed"),
+    (12, "unexpected casing"),
+    (14, "(skip)]`/`#["),
+    (16, "only single kind of `#["),
+    (15, "(...)]` attribute is allowed here"),
+    # syntax-level refusals of one attribute's content by the attribute parsers (all one class in the model)
+    (13, "expected one of: string literal, `bounds`, `bound`, `where`, `rename_all`"),
+    (13, "unknown attribute argument, expected `bound(...)`"),
+    (13, "expected string literal"),
+    (13, "expected identifier, found keyword `where`"),
+    (13, "expected attribute arguments in parentheses"),
+    (13, "expected parentheses: #["),
+    (13, "unexpected end of input"),
 ]
 
 
@@ -25,44 +41,12 @@ def err_code(msg):
 
 
 # ------------------------------------------------------------------ rename_all (independent of convert_case)
-
-def words(name):
-    """split a simple identifier into words: underscores and lower->Upper transitions"""
-    out = []
-    for part in re.split(r"[_\-\s]+", name):
-        if not part:
-            continue
-        out += re.findall(r"[A-Z]+(?![a-z])|[A-Z]?[a-z0-9]+", part)
-    return [w.lower() for w in out]
-
-
-def rename(name, casing):
-    w = words(name)
-    c = casing.replace("-", "").replace("_", "").lower()
-    if c == "lowercase":
-        return "".join(w)
-    if c == "uppercase":
-        return "".join(w).upper()
-    if c == "pascalcase":
-        return "".join(x.capitalize() for x in w)
-    if c == "camelcase":
-        return w[0] + "".join(x.capitalize() for x in w[1:]) if w else ""
-    if c == "snakecase":
-        return "_".join(w)
-    if c == "screamingsnakecase":
-        return "_".join(w).upper()
-    if c == "kebabcase":
-        return "-".join(w)
-    if c == "screamingkebabcase":
-        return "-".join(w).upper()
-    raise ValueError(casing)
+words, rename, CASINGS = F.words, F.rename, F.CASINGS
 
 
 # ------------------------------------------------------------------ generators
 
 FIELD_NAMES = ["a", "b", "c", "r#type", "_0", "source", "x1"]
-CASINGS = ["lowercase", "UPPERCASE", "PascalCase", "camelCase", "snake_case", "SCREAMING_SNAKE_CASE", "kebab-case",
-           "SCREAMING-KEBAB-CASE"]
 TYPE_NAMES = ["Foo", "FooBar", "PointXy", "r#Struct", "Xml", "OneTwoThree"]
 MODS = ["", "", "", ">8", "+", "-", "#", "0", "08", ".3", "<5.2", "^", "<", "é^", "1$", "w$", ".*", ".p$", "5"]
 
@@ -194,6 +178,8 @@ def gen_item(rng, idx, debug=False):
                         f["attr"] = gen_attr(rng, fs, "Debug", p_bare=0.1)
             if not debug and rng.random() < 0.15:
                 v["bounds"] = [("bound", "T: Clone")]
+            if not debug and rng.random() < 0.12:
+                v["rename_all"] = rng.choice(CASINGS)
             vs.append(v)
         it["variants"] = vs
         if rng.random() < 0.55:
@@ -213,67 +199,184 @@ def gen_item(rng, idx, debug=False):
                     F.mk_attr("{}", [(None, "_variant.len()")]), F.mk_attr("{_variant:}"), F.mk_attr("{_variant:.*}", [(None, "2")]),
                 ])
             it["container"]["fmt"] = a
+    if rng.random() < 0.22:
+        exoticize(rng, it)
+    return it
+
+
+# ------------------------------------------------------------------ several attributes on one item (Fmt/Front.v)
+
+ODD_CASINGS = ["Snake_Case", "SCREAMING-snake_CASE", "kebabCase", "Lower-Case", "camel_case", "PASCAL-CASE", "UPPER_CASE",
+               "screaming--kebab__case"]
+BAD_CASINGS = ["foo", "", "lower case", "snake", "Title Case", "snakecases"]
+
+
+def _noise_content(rng, name):
+    """an attribute with arbitrary content under the given name"""
+    k = rng.randrange(7)
+    if k == 0:
+        return {"name": name, "kind": "fmt", "attr": F.mk_attr(rng.choice(["zz", "zz{}", "{_variant}", "{0:?}"]),
+                                                              [(None, "1")] if rng.random() < 0.3 else [])}
+    if k == 1:
+        return {"name": name, "kind": "bound", "kw": rng.choice(["bound", "bounds"]), "src": rng.choice(["T: Ord", "U: Eq, T: Ord"])}
+    if k == 2:
+        return {"name": name, "kind": "rename_all", "value": rng.choice(CASINGS + BAD_CASINGS)}
+    if k == 3:
+        return {"name": name, "kind": "skip", "kw": rng.choice(["skip", "ignore"])}
+    if k == 4:
+        return {"name": name, "kind": "legacy_fmt", "src": rng.choice(['fmt = "x {}", a', 'fmt = "lit"', 'fmt = "{} {}", a, "b"'])}
+    if k == 5:
+        return {"name": name, "kind": "legacy_bound", "src": 'bound = "T: Clone"'}
+    return {"name": name, "kind": "other", "src": rng.choice(["foo", "where(T: Clone)", "", None, "fmt = 1", "forward"])}
+
+
+def mutate_raws(rng, raws, an, level, debug):
+    """`raws`: the attribute list of a container / variant / field; returns a changed list"""
+    raws = list(raws)
+    others = [n for n in F.ATTR_OF.values() if n != an]
+
+    def put(r):
+        raws.insert(rng.randrange(len(raws) + 1), r)
+
+    menu = ["shuffle", "foreign", "foreign", "dup_fmt", "bound", "bound", "rename", "rename", "odd_casing", "bad_casing",
+            "dup_rename", "legacy_fmt", "legacy_bound", "other", "skip", "own_noise"]
+    if level == "field":
+        # Debug's field attribute is Either<Skip, FmtAttribute>: two skips, two formats, one of each, foreign content
+        menu = ["skip", "skip", "skip", "dup_fmt", "dup_fmt", "dup_fmt", "foreign", "bound", "legacy_fmt", "other", "own_noise",
+                "rename", "shuffle"]
+    for _ in range(rng.choice([1, 1, 2, 3] if level != "field" else [1, 2, 2])):
+        m = rng.choice(menu)
+        if m == "shuffle":
+            rng.shuffle(raws)
+        elif m == "foreign":
+            put(_noise_content(rng, rng.choice(others)))
+        elif m == "own_noise":
+            put(_noise_content(rng, an))
+        elif m == "dup_fmt":
+            put({"name": an, "kind": "fmt", "attr": F.mk_attr(rng.choice(["dup", "{}"]), [])})
+        elif m == "bound":
+            put({"name": an, "kind": "bound", "kw": rng.choice(["bound", "bounds"]),
+                 "src": rng.choice(["T: Send", "U: Sync", "Option<T>: Clone", "T: core::fmt::Octal, U: Copy", "T: Clone"])})
+        elif m in ("rename", "dup_rename"):
+            put({"name": an, "kind": "rename_all", "value": rng.choice(CASINGS)})
+            if m == "dup_rename":
+                put({"name": an, "kind": "rename_all", "value": rng.choice(CASINGS)})
+        elif m == "odd_casing":
+            put({"name": an, "kind": "rename_all", "value": rng.choice(ODD_CASINGS)})
+        elif m == "bad_casing":
+            put({"name": an, "kind": "rename_all", "value": rng.choice(BAD_CASINGS)})
+        elif m == "legacy_fmt":
+            put({"name": an, "kind": "legacy_fmt", "src": rng.choice(['fmt = "x {}", a', 'fmt = "lit"', 'fmt = "{}", "s"'])})
+        elif m == "legacy_bound":
+            put({"name": an, "kind": "legacy_bound", "src": 'bound = "T: Clone"'})
+        elif m == "skip":
+            put({"name": an, "kind": "skip", "kw": rng.choice(["skip", "ignore"])})
+        else:
+            put({"name": an, "kind": "other", "src": rng.choice(["foo", "where(T: Clone)", "", None, "fmt = 1"])})
+    return raws
+
+
+def _first_fmt(raws, an):
+    for r in raws:
+        if r["name"] == an and r["kind"] == "fmt":
+            return r["attr"]
+    return None
+
+
+def exoticize(rng, it):
+    """rewrites some attribute lists of `it` into explicit raw lists: several attributes in any order, attributes of
+    other derives in between, duplicates, legacy spellings, unknown content.  The summary key `fmt` (read by the
+    text oracles) is kept equal to the format attribute the derive sees when the expansion succeeds."""
+    an = F.ATTR_OF[it["trait"]]
+    debug = it["trait"] == "Debug"
+    c = it["container"]
+    if rng.random() < 0.6:
+        c["raw"] = mutate_raws(rng, F.container_raw(c, an), an, "container", debug)
+        c["fmt"] = _first_fmt(c["raw"], an)
+        if c["fmt"] is None:
+            c.pop("fmt")
+    units = [it] if it["kind"] != "enum" else it["variants"]
+    for u in units:
+        if it["kind"] == "enum" and rng.random() < 0.4:
+            u["raw"] = mutate_raws(rng, F.variant_raw(u, an), an, "variant", debug)
+            u["fmt"] = _first_fmt(u["raw"], an)
+            if u["fmt"] is None:
+                u.pop("fmt")
+        if debug:
+            for f in u["fields"]["list"]:
+                if rng.random() < 0.5:
+                    f["raw"] = mutate_raws(rng, F.field_raw(f, an), an, "field", debug)
+                    fm = _first_fmt(f["raw"], an)
+                    f["attr"] = fm if fm is not None else ("skip" if any(r["name"] == an and r["kind"] == "skip" for r in f["raw"]) else None)
+    it["exotic"] = True
     return it
 
 
 # ------------------------------------------------------------------ model evaluation
 
+def load_model_tables():
+    """the two lookup tables of the model (Fmt/Front.v), read once per run: they are used to render the model's
+    predictions, so a wrong row shows up as a disagreement with the real expansion"""
+    if F.MODEL_DEFAULT_LITERAL:
+        return
+    trs = list(F.TR_COQ)
+    t = common.coq_eval(["Verif.Fmt.Front"], ["map default_placeholder_literal [%s]" % "; ".join(F.TR_COQ[x] for x in trs),
+                                               "map attr_name_of [%s]" % "; ".join(F.TR_COQ[x] for x in trs)], tag="fmttab")
+    for x, l, n in zip(trs, t[0], t[1]):
+        F.MODEL_DEFAULT_LITERAL[x] = py_str(l)
+        F.MODEL_ATTR_NAME[x] = py_str(n)
+
+
 def display_model_exprs(it, et, tids, preds):
-    """Gallina expressions: one per struct / variant"""
-    tr = F.TR_COQ[it["trait"]]
-    params = "[%s]" % "; ".join(coq_str(p) for p in it["params"])
-    c = it["container"]
+    """one Gallina expression per item: the whole derive input goes through the model's front end
+    (attribute selection by name, parsing classes, merging, rename_all, struct / enum / union)"""
+    return ["let it := %s in (d_expand_item unicode_cc to_case_marker %s it, item_frame it)" % (
+        F.ritem_coq(it, et, tids, preds), F.TR_COQ[it["trait"]])]
 
-    def pred_ids(bs):
+
+def canon_model_frame(t):
+    """Coq `frame` (Fmt/Front.v): how the fields become bindings"""
+    if t == "FrEmptyEnum":
+        return ("empty_enum",)
+    if t == "FrUnion":
+        return ("union",)
+    if t[0] == "FrStruct":
         out = []
-        for (_, src) in bs or []:
-            # a bound attribute may carry several comma-separated predicates
-            for p in split_top(src):
-                pid = preds.setdefault(F.nows(p), len(preds) + 1)
-                out.append(str(pid))
-        return "[%s]" % "; ".join(out)
-
-    def name_of(n, ra):
-        s = F.unraw(n)
-        return rename(s, ra) if ra else s
-
-    exprs = []
-    if it["kind"] == "union":
-        exprs.append("d_expand_union %s %s" % (F.opt_attr_coq(c.get("fmt"), et), pred_ids(c.get("bounds"))))
-    elif it["kind"] == "struct":
-        exprs.append("d_expand_struct unicode_cc {| d_shared := None; d_fmt := %s; d_user_bounds := %s; d_name := %s; "
-                     "d_fields := %s; d_params := %s; d_trait := %s |}" % (
-                         F.opt_attr_coq(c.get("fmt"), et), pred_ids(c.get("bounds")),
-                         coq_str(name_of(it["name"], c.get("rename_all"))),
-                         F.fields_coq(it["fields"], et, tids), params, tr))
-    else:
-        vs = []
-        for v in it["variants"]:
-            vs.append("{| d_shared := %s; d_fmt := %s; d_user_bounds := %s; d_name := %s; "
-                      "d_fields := %s; d_params := %s; d_trait := %s |}" % (
-                          F.opt_attr_coq(c.get("fmt"), et), F.opt_attr_coq(v.get("fmt"), et),
-                          pred_ids(v.get("bounds")), coq_str(name_of(v["name"], c.get("rename_all"))),
-                          F.fields_coq(v["fields"], et, tids), params, tr))
-        exprs.append("match d_expand_enum unicode_cc %s [%s] with ROk arms => ROk (arms, d_enum_bounds %s arms) | RErr c => RErr c end" % (
-            F.opt_attr_coq(c.get("fmt"), et), "; ".join(vs), pred_ids(c.get("bounds"))))
-    return exprs
-
-
-def split_top(src):
-    out, depth, cur = [], 0, ""
-    for ch in src:
-        if ch in "<([":
-            depth += 1
-        elif ch in ">)]":
-            depth -= 1
-        if ch == "," and depth == 0:
-            out.append(cur)
-            cur = ""
+        for (i, m) in t[1]:
+            out.append((F.nows(py_str(i)), "&self." + (F.nows(py_str(m[1])) if m[0] == "MNamed" else str(m[1]))))
+        return ("struct", tuple(out))
+    pats = []
+    for m in t[1]:
+        v = F.nows(py_str(m[1]))
+        if m[0] == "PUnit":
+            pats.append("Self::" + v)
+        elif m[0] == "PNamed":
+            pats.append("Self::%s{%s}" % (v, ",".join(F.nows(py_str(x)) for x in m[2])))
         else:
-            cur += ch
-    if cur.strip():
-        out.append(cur)
-    return out
+            pats.append("Self::%s(%s)" % (v, ",".join(F.nows(py_str(x)) for x in m[2])))
+    return ("enum", tuple(pats))
+
+
+def canon_real_frame(it, body):
+    """the same from the harness summary of a real expansion"""
+    if body is None:
+        return None
+    if it["kind"] == "union":
+        return ("union",) if body.get("k") != "block" else ("other", str(body.get("lets")))
+    if it["kind"] == "struct":
+        lets = body.get("lets", []) if body.get("k") == "block" else []
+        return ("struct", tuple((F.nows(l["pat"]), F.nows(l["init"])) for l in lets))
+    if body.get("k") != "match":
+        return ("other", str(body)[:200])
+    on = F.nows(body.get("on_tokens", ""))
+    if not body["arms"]:
+        return ("empty_enum",) if on == "*self" else ("other", on)
+    if on != "self" or any(a.get("guard") for a in body["arms"]):
+        return ("other", on)
+    return ("enum", tuple(F.nows(a["pat"]) for a in body["arms"]))
+
+
+split_top = F.split_top
 
 
 def real_display(resp):
@@ -305,29 +408,26 @@ def compare_display(chk, items, tier):
         index.append((len(exprs), len(es)))
         exprs += es
         ctxs.append((tids, preds))
-    terms = common.coq_eval(["Verif.Fmt.Model", "Verif.Gen.XidTable"], exprs, batch=200, tag="fmt")
+    load_model_tables()
+    terms = common.coq_eval(["Verif.Fmt.Front", "Verif.Gen.XidTable"], exprs, batch=200, tag="fmt")
     out = []
     for it, resp, (start, n), (tids, preds) in zip(items, resps, index, ctxs):
         tids_rev = {v: k for k, v in tids.items()}
         preds_rev = {v: k for k, v in preds.items()}
-        t = terms[start]
+        t, fr = terms[start]
+        m_frame = canon_model_frame(fr)
         m_err = None
         m_bodies, m_bounds = [], []
         if t[0] == "RErr":
             m_err = t[1]
         else:
-            if it["kind"] in ("struct", "union"):
-                b, bs = t[1]
+            arms, allb = t[1]
+            for (b, _) in arms:
                 m_bodies.append(F.canon_model_body(b, et) if b != "BEmpty" else None)
-                m_bounds += F.canon_model_bounds(bs, tids_rev, preds_rev)
-            else:
-                arms, allb = t[1]
-                for (b, _) in arms:
-                    m_bodies.append(F.canon_model_body(b, et) if b != "BEmpty" else None)
-                m_bounds += F.canon_model_bounds(allb, tids_rev, preds_rev)
+            m_bounds += F.canon_model_bounds(allb, tids_rev, preds_rev)
         ms = t
         out.append({"item": it, "src": F.item_src(it), "resp": resp, "model_terms": ms, "m_err": m_err,
-                    "m_bodies": m_bodies, "m_bounds": m_bounds, "et": et})
+                    "m_bodies": m_bodies, "m_bounds": m_bounds, "m_frame": m_frame, "et": et})
     return out
 
 
@@ -344,23 +444,7 @@ def real_arm_bodies(it, body):
 # ------------------------------------------------------------------ Debug
 
 def debug_model_exprs(it, et, tids, preds):
-    params = "[%s]" % "; ".join(coq_str(p) for p in it["params"])
-    c = it["container"]
-    ub = []
-    for (_, src) in c.get("bounds") or []:
-        for p in split_top(src):
-            ub.append(str(preds.setdefault(F.nows(p), len(preds) + 1)))
-    ub = "[%s]" % "; ".join(ub)
-    if it["kind"] == "union":
-        return ["g_expand_union"]
-    if it["kind"] == "struct":
-        return ["g_expand_one unicode_cc {| g_fmt := %s; g_user_bounds := %s; g_name := %s; g_fields := %s; g_params := %s |}" % (
-            F.opt_attr_coq(c.get("fmt"), et), ub, coq_str(F.unraw(it["name"])), F.fields_coq(it["fields"], et, tids), params)]
-    vs = []
-    for v in it["variants"]:
-        vs.append("{| g_fmt := %s; g_user_bounds := %s; g_name := %s; g_fields := %s; g_params := %s |}" % (
-            F.opt_attr_coq(v.get("fmt"), et), ub, coq_str(F.unraw(v["name"])), F.fields_coq(v["fields"], et, tids), params))
-    return ["g_expand_enum unicode_cc %s [%s]" % ("true" if c.get("fmt") is not None else "false", "; ".join(vs))]
+    return ["let it := %s in (g_expand_item unicode_cc it, item_frame it)" % F.ritem_coq(it, et, tids, preds)]
 
 
 def canon_real_debug(b):
@@ -449,21 +533,20 @@ def compare_debug(chk, items, tier):
         tids, preds = {}, {}
         exprs += debug_model_exprs(it, et, tids, preds)
         ctxs.append((tids, preds))
-    terms = common.coq_eval(["Verif.Fmt.Model", "Verif.Gen.XidTable"], exprs, batch=200, tag="dbg")
+    terms = common.coq_eval(["Verif.Fmt.Front", "Verif.Gen.XidTable"], exprs, batch=200, tag="dbg")
     out = []
-    for it, resp, t, (tids, preds) in zip(items, resps, terms, ctxs):
+    for it, resp, (t, fr), (tids, preds) in zip(items, resps, terms, ctxs):
         tids_rev = {v: k for k, v in tids.items()}
         preds_rev = {v: k for k, v in preds.items()}
         m_err, m_bodies, m_bounds = None, [], []
         if t[0] == "RErr":
             m_err = t[1]
         else:
-            pairs = [t[1]] if it["kind"] in ("struct", "union") else t[1]
-            for (b, bs) in pairs:
+            for (b, bs) in t[1]:
                 m_bodies.append(canon_model_debug(b, et))
                 m_bounds += F.canon_model_bounds(bs, tids_rev, preds_rev)
         out.append({"item": it, "src": F.item_src(it), "resp": resp, "m_err": m_err, "m_bodies": m_bodies,
-                    "m_bounds": m_bounds, "et": et})
+                    "m_bounds": m_bounds, "m_frame": canon_model_frame(fr), "et": et})
     return out
 
 
@@ -492,9 +575,12 @@ def decision_tie(chk, n_display, n_debug, focus=None):
         real = real_display(r["resp"])
         key = ("display", r["src"])
         shapes = set()
+        if it.get("exotic"):
+            chk.bump("display:several-or-foreign-attributes")
         if real[0] == "err":
             chk.count(key, True)
             chk.bump("display:rejected")
+            chk.bump("display:diagnostic:%s" % (real[1] if not isinstance(real[1], tuple) else "other"))
             if r["m_err"] != real[1]:
                 chk.violation("tie-fmt-model", {"item": r["src"], "derive": it["trait"], "real": str(real[1]), "model": str(r["m_err"])},
                               "Display-like model and code disagree on the diagnostic for: %s" % r["src"])
@@ -514,6 +600,11 @@ def decision_tie(chk, n_display, n_debug, focus=None):
             chk.violation("tie-fmt-model", {"item": r["src"], "derive": it["trait"], "real": str(rb), "model": str((r["m_err"], r["m_bodies"]))},
                           "Display-like model and code disagree on the body for: %s" % r["src"])
             continue
+        rf = canon_real_frame(it, real[1])
+        if rf != r["m_frame"]:
+            chk.violation("tie-fmt-model-bindings", {"item": r["src"], "derive": it["trait"], "real": str(rf), "model": str(r["m_frame"])},
+                          "Display-like model and code disagree on how the fields are bound for: %s" % r["src"])
+            continue
         if real[2] != r["m_bounds"]:
             chk.violation("tie-fmt-model-bounds", {"item": r["src"], "derive": it["trait"], "real": real[2], "model": r["m_bounds"]},
                           "Display-like model and code disagree on the inferred bounds for: %s" % r["src"])
@@ -528,6 +619,7 @@ def decision_tie(chk, n_display, n_debug, focus=None):
         if real[0] == "err":
             chk.count(key, True)
             chk.bump("debug:rejected")
+            chk.bump("debug:diagnostic:%s" % (real[1] if not isinstance(real[1], tuple) else "other"))
             if r["m_err"] != real[1]:
                 chk.violation("tie-fmt-model", {"item": r["src"], "derive": "Debug", "real": str(real[1]), "model": str(r["m_err"])},
                               "Debug model and code disagree on the diagnostic for: %s" % r["src"])
@@ -544,6 +636,11 @@ def decision_tie(chk, n_display, n_debug, focus=None):
         if r["m_err"] is not None or rb != r["m_bodies"]:
             chk.violation("tie-fmt-model", {"item": r["src"], "derive": "Debug", "real": str(rb), "model": str((r["m_err"], r["m_bodies"]))},
                           "Debug model and code disagree on the body for: %s" % r["src"])
+            continue
+        rf = canon_real_frame(it, real[1])
+        if rf != r["m_frame"]:
+            chk.violation("tie-fmt-model-bindings", {"item": r["src"], "derive": "Debug", "real": str(rf), "model": str(r["m_frame"])},
+                          "Debug model and code disagree on how the fields are bound for: %s" % r["src"])
             continue
         if real[2] != r["m_bounds"]:
             chk.violation("tie-fmt-model-bounds", {"item": r["src"], "derive": "Debug", "real": real[2], "model": r["m_bounds"]},
@@ -565,8 +662,10 @@ def finish_with_proofs(chk, st, rule, trusted, extra=None):
 
 FMT_TRUSTED = [
     "Coq 8.16.1 kernel + vm_compute (full .vo build); no axioms (Print Assumptions: closed)",
-    "hand-written Gallina models coq/theories/Fmt/Model.v + C03/{DmParse,StdParse}.v, tied to impl/src/fmt/*.rs by differential runs "
-    "(cases.v + vm_compute vs the in-process harness: bodies, bounds, diagnostics)",
+    "hand-written Gallina models coq/theories/Fmt/{Model,Front}.v + C03/{DmParse,StdParse}.v, tied to impl/src/fmt/*.rs (and the "
+    "attribute merging of impl/src/utils.rs) by differential runs: the whole derive input goes through the model's front end "
+    "(cases.v + vm_compute vs the in-process harness: bodies, field bindings, bounds, unit names, diagnostics); the model's "
+    "trait->attribute-name and trait->default-placeholder tables are read from Coq on every run and used to render its predictions",
     "Layer-2 semantics of emitted Rust (Trait::fmt(x, f) hands the caller's Formatter on; write!/format_args! ignore it; &T formats "
     "like T except for Pointer): assumed in Coq, exercised against rustc-compiled real expansions on every run",
     "tools/lib/{fmtitems,fmtcheck,fmtrt}.py generators/canonicalisers; harness/inproc (syn-based body summary); rustc 1.95",
